@@ -18,6 +18,7 @@ for s in seeds:
     top = tempfile.mkdtemp(prefix='seedrepo_', dir='/dev/shm')
     try:
         shutil.copytree('/repo/amr_kitchen', os.path.join(top, 'amr_kitchen'))
+        os.symlink('/repo/test', os.path.join(top, 'test'))
         r = subprocess.run(['patch', '-p1', '-s', '-i', os.path.join(sd, 'patch.diff')], cwd=top, capture_output=True, text=True)
         if r.returncode != 0:
             out[s] = {'error': 'patch does not apply: ' + r.stdout[-200:]}
@@ -25,11 +26,11 @@ for s in seeds:
             continue
         row = {}
         for c in checks:
-            env = dict(os.environ, VERIF_REPO_ROOT=top, VERIF_TIER='quick')
+            env = dict(os.environ, VERIF_REPO_ROOT=top, VERIF_TIER='quick', VERIF_EVIDENCE_DIR=os.path.join(top, 'ev'), VERIF_REPLAY_DIR=os.path.join(top, 'replays'))
             p = subprocess.run([os.path.join(VERIF, 'check'), c], cwd=VERIF, env=env, capture_output=True, text=True)
             row[c] = p.returncode
         out[s] = row
         print(s, ' '.join('%s=%d' % (c, row[c]) for c in checks if row[c] != 0) or 'nothing fired', flush=True)
     finally:
         shutil.rmtree(top, ignore_errors=True)
-json.dump(out, open(os.path.join(VERIF, 'seed_matrix.json'), 'w'), indent=1)
+json.dump(out, open(os.environ.get('SEED_MATRIX_OUT') or os.path.join(VERIF, 'seed_matrix.json'), 'w'), indent=1)
